@@ -7,7 +7,7 @@ from ..trace import split_units
 ID = "C14"
 LEVEL = "exploration"
 WORLDS = [(q, "plain") for q in (1, 3)]
-BUDGET = {"quick": dict(cases=700), "thorough": dict(cases=15000)}
+BUDGET = {"quick": dict(cases=1400), "thorough": dict(cases=45000)}
 MIN_NONTRIVIAL = {"quick": 1500, "thorough": 20000}
 BLOB = (400, 1400)
 RULE = ("Hypothesis byte-backed generator: 1-5 lines of which most address a command whose handler (each of write/read/run/test) returns HOLD after 0-2 NEXT/DATA_NEXT, "
